@@ -194,11 +194,12 @@ def driver_leaves(kind, m, N, rnd):
     H = Fraction(1, 2)
     L = [mkf('L1'), mkf('L2'), mkf('L2sq'), mkf('Huber', (1, 2)), mkf('Huber', 1), mkf('IndBox', -1, 2),
          mkf('IndBox', (-1, 2), (1, 2)), mkf('IndNonneg'), mkf('IndZero'), mkf('IndBall2'), mkf('IndBallInf'),
-         mkf('Const', 0, 3), mkf('Const', 0, 0), mkf('KL', v=alt(1, 2)), mkf('KLcc', v=alt(1, 2))]
+         mkf('Const', 0, 3), mkf('Const', 0, 0), mkf('KL', v=alt(1, 2)), mkf('KLcc', v=alt(1, 2)),
+         mkf('Huber', 2), mkf('KL'), mkf('KLcc'), mkf('KL', v=alt(Fraction(1, 2), 3))]
     if m == 1:
-        L += [mkf('Linf'), mkf('IndBall1'), mkf('IndSum', 1), mkf('IndSimplex', 2), mkf('IndSimplex', 1)]
+        L += [mkf('Linf'), mkf('IndBall1'), mkf('IndSum', 1), mkf('IndSum', (5, 2)), mkf('IndSimplex', 2), mkf('IndSimplex', 1)]
     if kind == 'power':
-        L += [mkf('GroupL1'), mkf('IndGroupBall')]
+        L += [mkf('GroupL1'), mkf('IndGroupBall'), mkf('GroupL1', 1), dict(mkf('IndGroupBall'), s=[1, 0])]
     if kind == 'pspace':
         n = N // 2
         parts = [mkf('L1'), mkf('L2sq'), mkf('L2'), mkf('IndBox', -1, 2), mkf('Huber', (1, 2))]
